@@ -314,7 +314,7 @@ func init() {
 			"oracle: the immediate retry succeeds, replicas converge and equal the server rebuild, every created change is in the log exactly once, every replica equals a one-by-one replay of the final log, " +
 			"counters equal the fault-free twin; evaluations = faulted executions, distinct_nontrivial counted as executions in which the fault actually fired (distinct by construction: history x request x call x mode x retry)",
 		Assume:      []string{"memdb backend: a storage call is atomic (no torn writes inside one call)", "single fault per execution"},
-		QuickBudget: 150 * time.Second,
+		QuickBudget: 300 * time.Second,
 	}
 	registerH(spec, c)
 	// Violations carry the faulted history in the detail (FH=...): reproduce that.
